@@ -185,7 +185,7 @@ impl RenetClient {
             }
 //@before /let last_range = ack_ranges\.last\(\)\.unwrap\(\);/
                     proof { lemma_ranges_wf_at(ack_ranges@, ack_ranges@.len() - 1); }
-//@before /let mut buffer = \[0u8; 1400\];/
+//@before /let mut buffer = /
         let ghost s3 = *self;
 //@loop 3 iter=itR
             invariant
